@@ -219,7 +219,7 @@ pub fn self_strategy() -> BoxedStrategy<SelfCase> {
 
 pub fn run(ctx: &Ctx) {
     sim::init();
-    ctx.set_rule("sim: Worker with repeat = N+1 for N in {0,1,2,3,254 (<=2 blocks)} x both roles x windowsize {1..5,16,65535} x 0..9 blocks, lossless link, model peer that answers every copy it can; own-vs-own: the repo's sender worker connected to the repo's receiver worker through an in-memory loss-free link with N in 0..3 independently on either side. Oracle: inside every burst each distinct datagram appears exactly N+1 times consecutively (S9), content byte-identical, transfer completes and ends at the final acknowledgement. Non-trivial = N >= 1 on at least one side; distinct = distinct scenarios. The wire part checks the server-level mapping of --duplicate-packets (initial reply once, DATA/ACK N+1 times), the start-up rejection of N >= 255, a two-window upload with a 300-block window at N=2 and N=60, and - in real time - that a stale ACK right after a window whose transmission takes longer than the timeout (600 blocks x 3 copies x 1 ms) triggers no retransmission.");
+    ctx.set_rule("sim: Worker with repeat = N+1 for N in {0,1,2,3,254 (<=2 blocks)} x both roles x windowsize {1..5,16,65535} x 0..9 blocks, lossless link, model peer that answers every copy it can; own-vs-own: the repo's sender worker connected to the repo's receiver worker through an in-memory loss-free link with N in 0..3 independently on either side. Oracle: inside every burst each distinct datagram appears exactly N+1 times consecutively (S9), content byte-identical, transfer completes and ends at the final acknowledgement. Non-trivial = N >= 1 on at least one side; distinct = distinct scenarios. The wire part checks the server-level mapping of --duplicate-packets (initial reply once - OACK, ACK 0 and every kind of refusal: ERROR 1 not found, ERROR 6 exists without --overwrite, ERROR 2 from a read-only server, with and without options - and DATA/ACK N+1 times), the start-up rejection of N >= 255, a two-window upload with a 300-block window at N=2 and N=60, and - in real time - that a stale ACK right after a window whose transmission takes longer than the timeout (600 blocks x 3 copies x 1 ms) triggers no retransmission.");
     ctx.assume("the 1 ms real sleep between copies is not judged; own-vs-own uses real 3 s receive timeouts that are never reached in a correct run");
     let dirs = DirPool::new(ctx, "c16");
     explore(ctx, "sim", ctx.tier.pick(4_000, 60_000), sim_strategy, |c: &Scenario, o| dirs.with(|d| judge_sim(d, c, o)));
